@@ -44,6 +44,9 @@ type Case struct {
 	StartOffsetMs uint64               `json:"start_offset_ms"`
 	Tables        c03world.TableSource `json:"tables"`
 	Ops           []Op                 `json:"ops"`
+	// ActiveFrom: the validators are not active (the accounts provider returns no validating
+	// accounts) for epochs before this one; they activate in the middle of the history (0: always active).
+	ActiveFrom uint64 `json:"active_from,omitempty"`
 }
 
 const maxEpochsPerHistory = 12
@@ -224,6 +227,10 @@ func genCase(t *rapid.T) Case {
 		}
 	}
 	c.Ops = append(c.Ops, Op{Kind: "start", Waited: waited})
+	if rapid.IntRange(0, 3).Draw(t, "activation") == 0 {
+		// nobody is active when the history begins; the validators activate 1-3 epochs later
+		c.ActiveFrom = e0 + rapid.Uint64Range(1, 3).Draw(t, "activeAfter")
+	}
 
 	sim := c03world.NewChain(p, &c03world.TableSource{})
 	slot, off := c.StartSlot, c.StartOffsetMs
@@ -336,6 +343,9 @@ func run(c *Case) result {
 	}
 	w := c03world.New(&c.P, &c.Tables, c03world.Options{SyncAggregators: aggs})
 	defer w.Stop()
+	if c.ActiveFrom > 0 {
+		w.Accounts.Active = func(_ uint64, epoch uint64) bool { return epoch >= c.ActiveFrom }
+	}
 	j := newJudge(c, w)
 	seen := map[string]bool{}
 	stop := false
@@ -457,6 +467,7 @@ func check(t ev.TB, c *Case) {
 	add(st.genesisStart, "start-at-genesis-having-waited")
 	add(st.providerErrors > 0, "provider-error")
 	add(st.slowNode, "slow-node")
+	add(st.activationCrossed, "epoch-tick-without-active-validators-before-activation")
 	add(st.accountsFaults > 0, "accounts-provider-fault-during-refresh")
 	add(st.droppedJobs > 0, "job-dropped-because-its-context-was-done")
 	add(st.straddled > 0, "duty-request-answered-in-a-later-slot")
